@@ -270,6 +270,14 @@ def gen_case(seed, tier='quick'):
             a1 = worlds.addr(sheets[0], 0, r1).split('!')[1]
             a2 = worlds.addr(sheets[0], W - 1, r2).split('!')[1]
             range_names['block'] = f'{sheets[0]}!{a1}:{a2}'
+    nested = None
+    formulas_ = [k for k in range(n) if nodes[k]['terms']]
+    if formulas_ and rng.random() < 0.08 and not any(
+            nd['fail'] == 'flaky' for nd in nodes):
+        # a second evaluation of the same model runs while this cell is
+        # being evaluated
+        nodes[rng.choice(formulas_)]['pause'] = True
+        nested = addrs[rng.randrange(n)]
     world = {'class': cls, 'info': info, 'nodes': nodes, 'sheets': sheets,
              'switches': switches, 'padding': padding,
              'decoy': rng.random() < 0.3,
@@ -284,6 +292,8 @@ def gen_case(seed, tier='quick'):
         if a == e and rng.random() < 0.5:
             via_name = nm
     first = {'op': 'eval', 'target': via_name or e}
+    if nested is not None:
+        first['nested'] = nested
     r = rng.random()
     if r < 0.25:
         first['fault'] = {'kind': 'interrupt',
@@ -377,6 +387,8 @@ def render(world):
             body = f'FLAKY({body})'
         elif nd['fail']:
             body = body + f"+FAIL_{nd['fail'].upper()}()"
+        if nd.get('pause') and len(parts) > 1:
+            body = f'PAUSE({body})'
         if len(parts) == 1 and nd['fail'] is None:
             cells[nd['a']] = nd['k']
         else:
@@ -680,9 +692,36 @@ def run_case(case):
                 else:
                     bump('fault_not_fired:interrupt')
             else:
+                nested_box = []
+                if op.get('nested') and op['nested'] in g.nodes:
+                    ntarget = op['nested']
+                    nexp = expectation(g, ntarget, cells, False)
+                    nbud = budgets(nexp)
+                    if nexp['allow'] == ['value']:
+                        nbud['max_steps'] = max(nbud['max_steps'],
+                                                SAFETY_STEPS)
+                    ev2 = Evaluator(model, uf.namespace())
+
+                    def hook():
+                        nst = Stepper(**nbud)
+                        with nst:
+                            o = outcome_of(ev2.evaluate, ntarget)
+                        nested_box.append((o, nst))
+                    if nexp['cyc_live'] or simple_paths(g, ntarget) < 400:
+                        uf.on_pause = hook
                 st = Stepper(**bud)
                 with st:
                     out = outcome_of(ev.evaluate, target)
+                uf.on_pause = None
+                if nested_box:
+                    bump('probe:second_evaluation_in_flight')
+                    nout, nst = nested_box[0]
+                    log.append([seq, 'nested-eval', ntarget, None, nout,
+                                nst.steps, nst.depth_seen, nst.msg_seen])
+                    v = judge(seq, ntarget, nout, nexp, nst, 'nested')
+                    if v is not None:
+                        viol = v
+                        break
             bump('sim_steps', st.steps)
             log.append([seq, 'eval', target, fired, out,
                         st.steps, st.depth_seen, st.msg_seen])
